@@ -16,8 +16,8 @@ RULE = ("two modes. ENUMERATED: for each of N fixed systems (quick 6, thorough 2
         "until it is abandoned), after which faults stop. SAMPLED: long bursty tapes (step fails, exhausted steps, rejected "
         "starts, rejected candidates) on larger systems. Invariants at the event where they can first fail: grown-from "
         "positioned neighbour, positioned generated residues == growth-order prefix, clean state and supplied residues intact "
-        "after every failed attempt, no double add, accepted molecules untouched, final state positioned exactly once, bounded "
-        "progress after the tape ends (dilute boxes). non-trivial = the schedule contains a fault symbol; distinct = distinct "
+        "after every failed attempt, no double add, accepted molecules untouched, final state positioned exactly once (runs that "
+        "make no progress within the step cap after the tape ends are counted, not judged). non-trivial = the schedule contains a fault symbol; distinct = distinct "
         "(schedule signature, event-log digest). Exhaustive over tapes of length L for the chosen systems, not over systems")
 ASSUMPTIONS = wa.ASSUMPTIONS
 REAL_VS_STUB = wa.REAL_VS_STUB
